@@ -16,6 +16,11 @@ inductive POp where
   | errbytes (fr : Framing) (tid : UInt16) (unit fc code : UInt8)
   | cls (fr : Framing) (tid : UInt16) (a : NewArgs) (k : Nat)
   | hdr (h body : Bytes)
+  /-- a constructed TCP request whose exported ProtocolID field was set to `pid` before encoding; the frame and what the
+  classifier says about it -/
+  | newreqp (pid : UInt16) (tid : UInt16) (a : NewArgs)
+  /-- `ErrorParseRTU{Packet: …}.Bytes()` -/
+  | errpbytes (unit fc code : UInt8)
   /-- a byte-count response value with arbitrary (possibly inconsistent) fields, encoded by the library -/
   | encresp (fc : UInt8) (fr : Framing) (tid : UInt16) (unit bl : UInt8) (d : Bytes)
 
@@ -36,6 +41,10 @@ def parsePOp (ts : List String) : Option POp :=
       pure (.cls fr tid a (← tokNat k))
     | _ => none
   | ["hdr", h, b] => do pure (.hdr (← unhex h) (← unhex b))
+  | "newreqp" :: pid :: rest => do
+      let (_, tid, a) ← tokNewArgs rest
+      pure (.newreqp (← tokU16 pid) tid a)
+  | ["errpbytes", u, fc, c] => do pure (.errpbytes (← tokU8 u) (← tokU8 fc) (← tokU8 c))
   | ["encresp", fc, fr, tid, u, bl, d] => do
       pure (.encresp (← tokU8 fc) (← tokFraming fr) (← tokU16 tid) (← tokU8 u) (← tokU8 bl) (← unhex d))
   | _ => none
@@ -75,6 +84,13 @@ def POp.modelOut : POp → String
     | .err e => e.str
     | .panic => "PANIC"
   | .hdr h body => hdrOut h body
+  | .newreqp _ tid a =>
+    -- the library writes protocol id 0 whatever the field holds
+    match newReq a with
+    | .ok r => s!"ok bytes={hex (r.bytes .tcp tid)} cls={looksStr (looksLike { vis := r.bytes .tcp tid, spare := [] } false)}"
+    | .err e => e.str
+    | .panic => "PANIC"
+  | .errpbytes u fc c => hex (excBytesRTU u fc c)
   | .encresp fc fr tid u bl d =>
     let r := if fc == 1 || fc == 2 then Resp.bits fc u bl d else Resp.regs fc u bl d
     hex (r.bytes fr tid)
@@ -155,6 +171,10 @@ def judgeC03 (op : POp) (out : String) : Expect :=
     match unhex out with
     | some b => .pred (endsWithSpecCrc b) "RTU exception frame must end with its CRC"
     | none => .pred false "unreadable output"
+  | .errpbytes _ _ _ =>
+    match unhex out with
+    | some b => .pred (endsWithSpecCrc b) "RTU exception frame must end with its CRC"
+    | none => .pred false "unreadable output"
   | .encresp _ .rtu _ _ _ _ =>
     -- whatever the fields of the response value: the frame the library emits ends with the CRC of what precedes it
     match unhex out with
@@ -184,6 +204,13 @@ def judgeC01 (op : POp) (out : String) : Expect :=
       let adu := Spec.adu fr tid a
       .pred (Spec.legal a && (out.startsWith ("ok bytes=" ++ hex adu ++ " ")) && adu.length ≤ Spec.maxADU fr)
         s!"a constructed request must be legal, at most {Spec.maxADU fr} bytes and serialize to {hex adu}"
+    else if out.startsWith "err" then .free
+    else .pred false "constructor must not panic"
+  | .newreqp _ tid a =>
+    -- an exported header field the encoder must not let through: the protocol identifier on the wire is 0
+    if out.startsWith "ok " then
+      let adu := Spec.adu .tcp tid a
+      .pred (out.startsWith ("ok bytes=" ++ hex adu ++ " ")) s!"a constructed request must serialize to {hex adu} (protocol id 0)"
     else if out.startsWith "err" then .free
     else .pred false "constructor must not panic"
   | .c2b bits => .exact (hex (Spec.pack bits))
@@ -286,6 +313,11 @@ def validExceptionFor (h eb : Bytes) : Bool :=
 
 def judgeC18 (op : POp) (out : String) : Expect :=
   match op with
+  | .newreqp _ tid a =>
+    if !out.startsWith "ok " then .free else
+    if a.fc == 17 then .noPanic else      -- KF-C18-fc17 (judged on the cls operations)
+    let adu := Spec.adu .tcp tid a
+    .pred (out.endsWith s!" cls=n={adu.length} nil") "every frame the library encodes must be classified with its own length"
   | .cls fr tid a k =>
     if out.startsWith "err plain" then .free else
     if fr != .tcp then .free else
